@@ -28,6 +28,7 @@ func slowGoid() uint64 {
 	return id
 }
 
+//go:nocheckptr
 func candidates() map[uintptr]bool {
 	id := slowGoid()
 	g := getg()
@@ -60,6 +61,8 @@ func init() {
 }
 
 // Goid returns the id of the calling goroutine.
+//
+//go:nocheckptr
 func Goid() uint64 {
 	if goidOff == 0 {
 		return slowGoid()
